@@ -804,6 +804,11 @@ def strategies():
             op = {"k": "g", "ns": ns, "g": g, "q": qs}
             if g in nsim.NPARAM:
                 op["a"] = [draw(angle_expr()) for _ in range(nsim.NPARAM[g])]
+                if draw(st.integers(0, 3 if nsim.ARITY[g] == 1 else 1)) == 0:
+                    # periods differ between gates (2 pi for rx/ry/rz up to phase, 4 pi for crz, ...): whole and
+                    # half numbers of half-turns, as literals and as arithmetic
+                    w = draw(st.sampled_from([2.0, -2.0, 6.0, -6.0, 4.0, 1.0, -1.0, 3.0, 0.0, -4.0]))
+                    op["a"][0] = draw(st.sampled_from([["lit", w], ["mul", ["pi"], w], ["add", ["lit", w - 1.0], ["pi"]]]))
             ops.append(op)
         final = list(draw(st.permutations(list(range(n)))))
         seed = draw(st.integers(1, 10**6))
